@@ -88,6 +88,10 @@ package cmd
 // specific branch of either tree
 //@ func cmd.compareTreesCmd.RunE
 //@   flag noframe
+//@   return@L1 [the_error_of_a_compared_tree_is_returned_to_the_caller] st.Err != nil && result0 == st.Err
+//@   return@L6 [the_error_of_a_compared_tree_is_returned_to_the_caller_binary] st.Err != nil && result0 == st.Err
+//@   return@L8 [the_error_of_a_compared_tree_is_returned_to_the_caller_rf] st.Err != nil && result0 == st.Err
+//@   return@L10 [the_error_of_a_compared_tree_is_returned_to_the_caller_counts] st.Err != nil && result0 == st.Err
 //@   call fmt.Printf@L8 [rf_is_the_sum_of_the_two_specific_counts] a0 == "%d\n" && len(a1) == 1 && iref(a1[0]) == st.Tree1 + st.Tree2
 //@   call fmt.Printf@L10 [identifier_then_reference_common_compared] a0 == "%d\t%d\t%d\t%d\n" && len(a1) == 4 && iref(a1[0]) == st.Id && iref(a1[1]) == st.Tree1 && iref(a1[2]) == st.Common && iref(a1[3]) == st.Tree2
 //@   loop 3
